@@ -372,6 +372,22 @@ class C05:
                         raise e
                     exc = core.graphtage_site(e)
                 outcomes.append((status, rc, exc, SEAMS.out.since(0)))
+            # colour forced on: the bytes differ by design (ANSI codes), exit status and success must not
+            hygiene()
+            root = logging.getLogger()
+            for h in list(root.handlers):
+                root.removeHandler(h)
+            SEAMS.clock.configure(run.get("clock", "frozen"))
+            rc, extra_err, e = run_command(["graphtage", "--color"] + opts + [pa, pb])
+            cexc = None
+            if e is not None:
+                if "outside-graphtage" in core.graphtage_site(e) and not isinstance(e, RecursionError):
+                    raise e
+                cexc = core.graphtage_site(e)
+            if (rc, cexc) != (outcomes[0][1], outcomes[0][2]):
+                raise Violation("cli-colour-differs", "cli_status",
+                                f"graphtage --color {opts} ended with rc={rc} exc={cexc}, but --no-color with "
+                                f"rc={outcomes[0][1]} exc={outcomes[0][2]}")
             counters["probe.macro_cli_status"] = counters.get("probe.macro_cli_status", 0) + 1
             log.add("macro", "cli_status", [(o[1], o[2], len(o[3])) for o in outcomes])
             base = outcomes[0]
